@@ -44,4 +44,9 @@ META = {
   "text": "The real DoBatchWithOptions runs inside a synctest bubble against a fake DoBatchRing, a real ring.Ring or the partition batch ring; replica callbacks park on gates that the harness opens in a chosen order, calling synctest.Wait() after each, so after every prefix of completions the monitor compares 'has it returned, with nil or which error' against the decision rule of the statement (three-valued: must-not / may / must), and at the end exactly-once return, one call per selected replica with exactly its indexes, cleanup once and after the last call, custom spawner use. All 3^n outcome assignments x n! orders are run for shapes with <= 4 replica calls, samples above; cancellation at random positions; empty key list; failing lookup. A second part runs all callbacks at once under -race and checks the order-independent verdict.",
   "note": "Orders of external completion events are enumerated, not instruction interleavings inside dskit; the latter only through the -race part. MaxErrors < set size assumed (as every ring produces).",
  },
+ "C11": {
+  "technique": "runtime trace monitor with a deterministic step scheduler (synctest): gated calls, hedging ticks as virtual sleeps, per-prefix criterion oracle, result-conservation and context ledgers; concurrent mode under the Go race detector",
+  "text": "The real DoUntilQuorum, DoUntilQuorumWithoutSuccessfulContextCancellation, DoMultiUntilQuorum... and legacy ReplicationSet.Do run in a synctest bubble with every call parked on a gate; the harness performs one action at a time (release a call with its success/failure/terminal outcome, advance the virtual clock by the hedging delay, cancel the caller) and calls synctest.Wait(); after each action: returned iff the counting criterion of the statement decided, exact result set, bound on calls started under request minimisation (minimal + failures + ticks; zone order of the sorter); after draining every call: each successful result returned xor cleaned exactly once, contexts of unused calls cancelled, at most one call per instance. All 2^n outcomes x n! priorities for <= 4 instances, sampled above; a second part lets calls finish on their own under -race.",
+  "note": "Which zones/instances are tried first without a sorter is random in the implementation: the observed start set is taken as input and only its size and order-prefix are constrained. Legacy Do is checked for criterion/return only.",
+ },
 }
